@@ -2,7 +2,7 @@
    part (pattern of the bordered matrix, the loops of create_kkt_matrix, the merge walk with two sources, the refresh passes) is
    generic in the roles of the blocks and is used again by KKTSparseIneqProofs.v. *)
 From PIQP Require Import Base CSC C14LemmasProofs CSCProofs TransposeProofs LinAlg KKTProofs KKTSparseFull KKTSparseFullProofs
-  KKTSparseFullPermProofs KKTSparseAll KKTSparseAllTrProofs KKTSparseAllProofs KKTSparseEq KKTSparseIneq.
+  KKTSparseFullPermProofs KKTSparseAll KKTSparseAllTrProofs KKTSparseAllProofs KKTSparseAllDataProofs KKTSparseEq KKTSparseIneq.
 Local Open Scope nat_scope.
 
 (* ================================================================ small list facts *)
@@ -670,6 +670,31 @@ Proof.
   rewrite XXof_eq, (pvals_get n rx X XT wt cx i j) by auto. now apply (prodval_cache n rx XT X wt i j CX).
 Qed.
 
+(* the cached product with every stored value multiplied by w *)
+Lemma XX_get_scaled X cx (w : F) i j : cache_ok n rx XT X -> pvals n X XT rx None cx -> i <= j -> j < n ->
+  csc_get (XXof X (map (fun v : Qc => (v * w)%Qc) cx)) i j = (sum_n rx (fun l => (csc_get XT i l * csc_get XT j l)%Qc) * w)%Qc.
+Proof.
+  intros CX VX Hij Hj. pose proof CX as (HwA & HnA & HrA & _).
+  pose proof (pvals_len n X XT rx None cx HnX VX) as Lcx.
+  assert (Lcx' : length (map (fun v : Qc => (v * w)%Qc) cx) = coff (prod_col X XT) n) by now rewrite map_length.
+  assert (Hrow : forall j0 r0, j0 < n -> In r0 (prod_col X XT j0) -> r0 < n) by (intros j0 r0 Hj0 H0; apply prod_col_le in H0; lia).
+  rewrite XXof_eq.
+  destruct (in_dec Nat.eq_dec i (prod_col X XT j)) as [Hin|Hout].
+  - destruct (In_pos _ j i Hin) as (t & Ht & <-).
+    rewrite (ocv_get_in n (prod_col X XT) (fun j _ => prod_col_inc X XT j) _ Lcx' j t Hj Ht).
+    rewrite (nth_indep _ 0%Qc ((fun v : Qc => (v * w)%Qc) 0%Qc)).
+    2:{ rewrite Lcx'. apply (off_lt (coff (prod_col X XT)) (fun j => length (prod_col X XT j)) n); auto. }
+    rewrite (map_nth (fun v : Qc => (v * w)%Qc)). cbv beta. f_equal.
+    etransitivity; [symmetry; exact (ocv_get_in n (prod_col X XT) (fun j _ => prod_col_inc X XT j) cx Lcx j t Hj Ht)|].
+    rewrite (pvals_get n rx X XT None cx _ j) by auto. rewrite (prodval_cache n rx XT X None _ j CX Hj).
+    apply sum_n_ext. intros l Hl. cbn [wt_val]. fring.
+  - rewrite (ocv_get_out n (prod_col X XT) _ Lcx' j i Hj Hout).
+    assert (Z : prodval X XT rx None i j = 0%Qc) by (apply (prodval_out X XT n rx); auto).
+    rewrite (prodval_cache n rx XT X None i j CX Hj) in Z.
+    rewrite (sum_n_ext rx _ (fun l => (wt_val None l * csc_get XT i l * csc_get XT j l)%Qc)) by (intros; cbn [wt_val]; fring).
+    rewrite Z. fring.
+Qed.
+
 (* index maps: in range and injective *)
 Lemma map_range_inj X (S0 : csc F) mp : src_ok n (kcE X) S0 -> map_ok n (kcE X) S0 mp ->
   (forall k, k < nnz S0 -> nth k mp 0 < coff (kcE X) n) /\
@@ -1107,19 +1132,19 @@ End Passes.
 (* ---- init_workspace + create_kkt_matrix + init (identity ordering), both modes ---- *)
 Local Notation E0x X := (csc_of_cols (n + r) (ecE X) (fun _ _ => 0%Qc)).
 
-Definition create_spec (exact : bool) (TLv : csc F -> Vec -> nat -> nat -> F) (dval : F) (em : emat) : Prop :=
+Definition create_spec (Q : csc F -> Vec -> Prop) (TLv : csc F -> Vec -> nat -> nat -> F) (dval : F) (em : emat) : Prop :=
   exists X cx kx,
     em_K em = mkcsc N N (colptr (E0x X)) (rowind (E0x X)) kx /\ length kx = coff (ecE X) N /\
     (forall cc t, cc < N -> t < length (ecE X cc) ->
        nth (coff (ecE X) cc + t) kx 0%Qc = Kgen (TLv X cx) (fun _ => dval) (nth t (ecE X cc) 0) cc) /\
     em_X em = X /\ cache_ok n rx XT X /\ em_XX em = XXof X cx /\ length cx = coff (prod_col X XT) n /\
-    (exact = true -> pvals n X XT rx None cx) /\
+    Q X cx /\
     map_ok n (kcE X) P (em_P2K em) /\ map_ok n (kcE X) (XXof X cx) (em_X2K em) /\
     length (em_R2K em) = nnz RT /\ (forall l i, l < r -> i < clen RT l -> nth (cp RT l + i) (em_R2K em) 0 = coff (ecE X) (n + l) + i) /\
     em_tmp em = repeat 0%Qc n.
 
 (* what a created matrix is: well formed, upper triangular, diagonal last, maps in range and injective, entries *)
-Theorem create_spec_wf exact TLv dval em : create_spec exact TLv dval em ->
+Theorem create_spec_wf Q TLv dval em : create_spec Q TLv dval em ->
   (forall X cx i j, length cx = coff (prod_col X XT) n -> j < n -> i <= j -> ~ In i (kcE X j) -> TLv X cx i j = 0%Qc) ->
   let K := em_K em in
   nrows K = N /\ ncols K = N /\ wf_csc K = true /\ upper_only K = true /\ diag_is_last K /\
@@ -1151,19 +1176,26 @@ Proof.
 Qed.
 
 (* init under the identity ordering from a created matrix: static invariant, unit scalings, values = created + box terms *)
-Theorem init_from_create exact TLv dval em rho delta : create_spec exact TLv dval em -> scal_ok d (unit_scal d rho delta) ->
+Theorem init_from_create exact Q TLv dval em rho delta : create_spec Q TLv dval em -> scal_ok d (unit_scal d rho delta) ->
+  (forall X cx, Q X cx -> exact = true -> pvals n X XT rx None cx) ->
   exists k X cx, e_finish_init d N rho delta None em = Ok k /\ e_static X exact k /\ ek_sc k = unit_scal d rho delta /\
-    ek_XX k = XXof X cx /\ length cx = coff (prod_col X XT) n /\ (exact = true -> pvals n X XT rx None cx) /\
+    ek_XX k = XXof X cx /\ length cx = coff (prod_col X XT) n /\ Q X cx /\ cache_ok n rx XT X /\
     forall cc t, cc < N -> t < length (ecE X cc) ->
       nth (coff (ecE X) cc + t) (ek_kx k) 0%Qc
       = (Kgen (TLv X cx) (fun _ => dval) (nth t (ecE X cc) 0%nat) cc
          + (if (cc <? n) && (nth t (ecE X cc) 0%nat =? cc) then a_bdiag (sys_sparse d (unit_scal d rho delta)) cc else 0))%Qc.
 Proof.
-  intros (X & cx & kx & EK & Lkx & Hv & EX & CX & EXX & Lcx & Vx & MP & MX & Lr & Hr & Etmp) Hsc.
-  destruct (finish_init_ok X exact rho delta em cx kx EK Lkx EX CX EXX Lcx Vx MP MX Lr Hr Etmp Hsc) as (k & E & Hst & Ec & EXk & Hk).
+  intros (X & cx & kx & EK & Lkx & Hv & EX & CX & EXX & Lcx & Vx & MP & MX & Lr & Hr & Etmp) Hsc HQ.
+  destruct (finish_init_ok X exact rho delta em cx kx EK Lkx EX CX EXX Lcx (HQ X cx Vx) MP MX Lr Hr Etmp Hsc) as (k & E & Hst & Ec & EXk & Hk).
   exists k, X, cx. split; [exact E|]. split; [exact Hst|]. split; [exact Ec|]. split; [now rewrite EXk|].
-  split; [exact Lcx|]. split; [exact Vx|]. intros cc t Hc Ht. rewrite Hk by auto. now rewrite Hv.
+  split; [exact Lcx|]. split; [exact Vx|]. split; [exact CX|]. intros cc t Hc Ht. rewrite Hk by auto. now rewrite Hv.
 Qed.
+
+(* what init_workspace leaves: X is Eigen's transpose of XT and the cached product holds the exact sums *)
+Definition Qeq0 (X : csc F) (cx : Vec) : Prop := csc_transpose XT = Ok X /\ pvals n X XT rx None cx.
+
+Lemma unit_nth l k : l < k -> nth l (vconst k 1%Qc) 0%Qc = 1%Qc.
+Proof. intros H. unfold vconst. rewrite (nth_indep _ 0%Qc 1%Qc) by (rewrite repeat_length; lia). apply nth_repeat. Qed.
 
 Section EqCore2.
 Hypothesis EXT : sd_AT d = XT.
@@ -1173,7 +1205,7 @@ Hypothesis Er : sd_m d = r.
 Definition TLeq0 (rho delta : F) (X : csc F) (cx : Vec) : nat -> nat -> F := tlval (XXof X cx) rho (Some (1 / delta)%Qc).
 
 Theorem eq_create_ok rho delta : delta <> 0%Qc ->
-  exists em, eq_create d rho delta = Ok em /\ create_spec true (TLeq0 rho delta) (- (1) - delta)%Qc em.
+  exists em, eq_create d rho delta = Ok em /\ create_spec Qeq0 (TLeq0 rho delta) (- (1) - delta)%Qc em.
 Proof.
   intros Hd. unfold eq_create, eq_workspace. rewrite EXT.
   destruct ws_core as (X & cx & EXc & ES & CX & VX). rewrite EXc. cbn [bind]. cbv zeta. unfold Vec, F in *. rewrite ES. cbn [bind].
@@ -1182,19 +1214,42 @@ Proof.
   assert (Lcx : length cx = coff (prod_col X XT) n) by (apply (pvals_len n X XT rx _ cx HnX VX)).
   destruct (create_core X cx rho (Some (1 / delta)%Qc) (- (1) - delta)%Qc Lcx) as (kx & p2k & x2k & r2k & E & Lkx & Hv & MP & MX & Lr & Hr).
   unfold Vec, F in *. rewrite E. cbn [bind]. eexists. split; [reflexivity|].
-  exists X, cx, kx. cbn [em_K em_P2K em_X2K em_R2K em_X em_XX em_tmp]. unfold TLeq0. auto 20.
+  exists X, cx, kx. cbn [em_K em_P2K em_X2K em_R2K em_X em_XX em_tmp]. unfold TLeq0, Qeq0. auto 20.
+Qed.
+
+(* the values init leaves: the canonical form for the unit scalings, box terms included *)
+Theorem eq_init_form_core rho delta em : create_spec Qeq0 (TLeq0 rho delta) (- (1) - delta)%Qc em ->
+  scal_ok d (unit_scal d rho delta) ->
+  exists k X, e_finish_init d N rho delta None em = Ok k /\
+    e_form X true (TLeq (unit_scal d rho delta)) (Deq (unit_scal d rho delta)) (unit_scal d rho delta) k /\ csc_transpose XT = Ok X.
+Proof.
+  intros Hs Hsc.
+  destruct (init_from_create true _ _ _ em rho delta Hs Hsc (fun _ _ H _ => proj2 H)) as (k & X & cx & E2 & Hst & Ec & EXX & Lcx & (Ecan & Vx) & CX & Hv).
+  exists k, X. split; [exact E2|]. split; [|exact Ecan]. split; [exact Hst|]. split; [exact Ec|].
+  intros cc t Hc Ht. rewrite Hv by auto. unfold Kgen.
+  assert (Hij : nth t (ecE X cc) 0 <= cc) by (apply (ecE_le X cc); auto; apply nth_In; auto).
+  destruct (Nat.ltb_spec cc n) as [Lc|Gc]; cbn [andb].
+  - unfold TLeq0, tlval, TLeq, TLgen. rewrite (XX_get X cx None _ cc CX Vx Hij Lc). cbn [unit_scal sc_rho sc_delta].
+    destruct (Nat.eqb_spec (nth t (ecE X cc) 0) cc) as [Ei|Ni]; [rewrite Ei|]; fring.
+  - destruct (Nat.ltb_spec (nth t (ecE X cc) 0) n); [fring|].
+    destruct (Nat.eqb_spec (nth t (ecE X cc) 0) cc); [|fring].
+    unfold Deq. cbn [unit_scal sc_s sc_z_inv sc_delta]. rewrite !unit_nth by lia. fring.
 Qed.
 End EqCore2.
 
 Section IneqCore2.
 Hypothesis EXT : sd_GT d = XT.
 Hypothesis ERT : sd_AT d = RT.
+Hypothesis Erx : sd_m d = rx.
 Hypothesis Er : sd_p d = r.
 
 Definition TLineq0 (rho : F) (X : csc F) (cx : Vec) : nat -> nat -> F := tlval (XXof X cx) rho None.
+(* the cached product at init: the exact sums scaled by 1 / (1 + delta) *)
+Definition Qineq0 (delta : F) (X : csc F) (cx' : Vec) : Prop :=
+  csc_transpose XT = Ok X /\ exists cx, cx' = map (fun v : Qc => (v * (1 / (1 + delta)))%Qc) cx /\ pvals n X XT rx None cx.
 
 Theorem ineq_create_ok rho delta : (1 + delta)%Qc <> 0%Qc ->
-  exists em, ineq_create d rho delta = Ok em /\ create_spec false (TLineq0 rho) (- delta)%Qc em.
+  exists em, ineq_create d rho delta = Ok em /\ create_spec (Qineq0 delta) (TLineq0 rho) (- delta)%Qc em.
 Proof.
   intros Hd. unfold ineq_create, ineq_workspace. rewrite EXT.
   destruct ws_core as (X & cx & EXc & ES & CX & VX). rewrite EXc. cbn [bind]. cbv zeta. unfold Vec, F in *. rewrite ES. cbn [bind].
@@ -1208,7 +1263,30 @@ Proof.
   unfold Vec, F in *. rewrite E. cbn [bind]. eexists. split; [reflexivity|].
   exists X, cx', kx. cbn [em_K em_P2K em_X2K em_R2K em_X em_XX em_tmp]. unfold TLineq0.
   split; [reflexivity|]. split; [exact Lkx|]. split; [exact Hv|]. split; [reflexivity|]. split; [exact CX|]. split; [reflexivity|].
-  split; [exact Lcx|]. split; [discriminate|]. auto 20.
+  split; [exact Lcx|]. split; [split; [exact EXc|exists cx; split; [reflexivity|exact VX]]|]. auto 20.
+Qed.
+
+Theorem ineq_init_form_core rho delta em : create_spec (Qineq0 delta) (TLineq0 rho) (- delta)%Qc em ->
+  scal_ok d (unit_scal d rho delta) ->
+  exists k X, e_finish_init d N rho delta None em = Ok k /\
+    e_form X false (TLineq (unit_scal d rho delta)) (Dineq (unit_scal d rho delta)) (unit_scal d rho delta) k /\ csc_transpose XT = Ok X.
+Proof.
+  intros Hs Hsc.
+  destruct (init_from_create false _ _ _ em rho delta Hs Hsc (fun _ _ _ (H : false = true) => False_ind _ (Bool.diff_false_true H)))
+    as (k & X & cx' & E2 & Hst & Ec & EXX & Lcx & (Ecan & cx & Ecx & Vx) & CX & Hv).
+  exists k, X. split; [exact E2|]. split; [|exact Ecan]. split; [exact Hst|]. split; [exact Ec|].
+  intros cc t Hc Ht. rewrite Hv by auto. unfold Kgen.
+  assert (Hij : nth t (ecE X cc) 0 <= cc) by (apply (ecE_le X cc); auto; apply nth_In; auto).
+  destruct (Nat.ltb_spec cc n) as [Lc|Gc]; cbn [andb].
+  - unfold TLineq0, tlval, TLineq, TLgen, wtI. rewrite Ecx, (XX_get_scaled X cx _ _ cc CX Vx Hij Lc).
+    cbn [unit_scal sc_rho sc_delta sc_s sc_z_inv].
+    rewrite (sum_n_ext rx (fun l => (wt_val (Some (vconst (sd_m d) 1%Qc, vconst (sd_m d) 1%Qc, delta)) l * csc_get XT (nth t (ecE X cc) 0%nat) l * csc_get XT cc l)%Qc)
+               (fun l => (csc_get XT (nth t (ecE X cc) 0%nat) l * csc_get XT cc l * (1 / (1 + delta)))%Qc)).
+    2:{ intros l Hl. cbn [wt_val]. rewrite !unit_nth by lia. replace (1 * 1 + delta)%Qc with (1 + delta)%Qc by fring. fring. }
+    rewrite sum_n_scale_r.
+    destruct (Nat.eqb_spec (nth t (ecE X cc) 0) cc) as [Ei|Ni]; [rewrite Ei|]; fring.
+  - destruct (Nat.ltb_spec (nth t (ecE X cc) 0) n); [fring|].
+    destruct (Nat.eqb_spec (nth t (ecE X cc) 0) cc); [|fring]. unfold Dineq. cbn [unit_scal sc_delta]. fring.
 Qed.
 End IneqCore2.
 End Elim.
@@ -1280,16 +1358,16 @@ Proof.
   intros Hd.
   destruct (eq_create_ok d Hwf Hsorted AT GT p m HwA HnA HcA HwG HnG HcG HsG eq_refl eq_refl eq_refl rho delta Hd) as (em & E & Hs).
   exists em. split; [exact E|].
-  pose proof Hs as (X0 & cx0 & kx0 & _ & _ & _ & EX0 & CX0 & EXX0 & Lcx0 & Vx0 & _ & _ & _ & _ & Etmp). subst X0.
+  pose proof Hs as (X0 & cx0 & kx0 & _ & _ & _ & EX0 & CX0 & EXX0 & Lcx0 & (_ & Vx0) & _ & _ & _ & _ & Etmp). subst X0.
   split; [|exact Etmp].
-  destruct (create_spec_wf d Hwf Hup Hsorted AT GT p m HnA HcA HwG HnG HcG HsG true _ _ em Hs) as (A1 & A2 & A3 & A4 & A5 & A6 & A7 & A8 & A9 & A10 & A11 & A12 & A13 & A14 & X & cx & EX & EXX & Hg).
+  destruct (create_spec_wf d Hwf Hup Hsorted AT GT p m HnA HcA HwG HnG HcG HsG _ _ _ em Hs) as (A1 & A2 & A3 & A4 & A5 & A6 & A7 & A8 & A9 & A10 & A11 & A12 & A13 & A14 & X & cx & EX & EXX & Hg).
   { intros X cx i j L Hj Hij Hno. unfold TLeq0. eapply tlval_out; eauto. }
   unfold created_ok. cbv zeta. repeat (split; [assumption|]).
   intros i j Hij Hj. rewrite Hg by auto. unfold Kgen.
   destruct (Nat.ltb_spec j n) as [Lj|Gj]; [|reflexivity].
   unfold TLeq0, tlval. f_equal. f_equal.
   subst X. assert (Ecx : XXof AT (em_X em) cx = XXof AT (em_X em) cx0) by congruence. rewrite Ecx.
-  rewrite (XX_get d AT p HwA HnA HcA (em_X em) cx0 None i j CX0 (Vx0 eq_refl) Hij Lj). unfold SAd.
+  rewrite (XX_get d AT p HwA HnA HcA (em_X em) cx0 None i j CX0 Vx0 Hij Lj). unfold SAd.
   apply sum_n_ext. intros l Hl. cbn [wt_val]. fring.
 Qed.
 
@@ -1299,8 +1377,18 @@ Theorem eq_init_static rho delta : delta <> 0%Qc -> scal_ok d (unit_scal d rho d
 Proof.
   intros Hd Hsc.
   destruct (eq_create_ok d Hwf Hsorted AT GT p m HwA HnA HcA HwG HnG HcG HsG eq_refl eq_refl eq_refl rho delta Hd) as (em & E & Hs).
-  destruct (init_from_create d Hwf Hup AT GT p m HnA HcA HwG HnG HcG HsG true _ _ em rho delta Hs Hsc) as (k & X & cx & E2 & Hst & Ec & _).
+  destruct (init_from_create d Hwf Hup AT GT p m HnA HcA HwG HnG HcG HsG true _ _ _ em rho delta Hs Hsc (fun _ _ H _ => proj2 H)) as (k & X & cx & E2 & Hst & Ec & _).
   exists k, X. unfold eq_init. rewrite E. cbn [bind]. unfold eq_N. split; [exact E2|]. split; [exact Hst|exact Ec].
+Qed.
+
+(* ... and leaves the canonical form for the unit scalings (box terms included) *)
+Theorem eq_init_form rho delta : delta <> 0%Qc -> scal_ok d (unit_scal d rho delta) ->
+  exists k X, eq_init d rho delta None = Ok k /\ eqF d X (unit_scal d rho delta) k /\ csc_transpose AT = Ok X.
+Proof.
+  intros Hd Hsc.
+  destruct (eq_create_ok d Hwf Hsorted AT GT p m HwA HnA HcA HwG HnG HcG HsG eq_refl eq_refl eq_refl rho delta Hd) as (em & E & Hs).
+  destruct (eq_init_form_core d Hwf Hup AT GT p m HwA HnA HcA HwG HnG HcG HsG eq_refl rho delta em Hs Hsc) as (k & X & E2 & Hf & Ecan).
+  exists k, X. unfold eq_init. rewrite E. cbn [bind]. unfold eq_N. split; [exact E2|]. split; [exact Hf|exact Ecan].
 Qed.
 
 (* update_scalings from ANY state with the static invariant reaches the canonical form for the new scalings *)
@@ -1317,13 +1405,11 @@ Proof.
   split; assumption.
 Qed.
 
-(* the four refresh calls = update_data(options) for a non-zero mask without KKT_UPDATE_A *)
-Theorem eq_update_data_partial X k options : Nat.testbit options 1 = false -> options <> 0 ->
-  eqS d X k -> scal_ok d (ek_sc k) -> sc_delta (ek_sc k) <> 0%Qc ->
-  exists k', eq_update_data d k options = Ok k' /\ eqF d X (ek_sc k) k'.
+(* the four refresh calls from any state with the static invariant *)
+Theorem eq_refresh_thm X k : eqS d X k -> scal_ok d (ek_sc k) -> sc_delta (ek_sc k) <> 0%Qc ->
+  exists k', eq_refresh d k = Ok k' /\ eqF d X (ek_sc k) k'.
 Proof.
-  intros Hb Hnz Hst Hsc Hdz. unfold eq_update_data. rewrite Hb. cbn [bind].
-  destruct (Nat.eqb_spec options 0) as [?Hy|?Hn]; [contradiction|].
+  intros Hst Hsc Hdz.
   apply (eq_refresh_form d Hwf Hup Hsorted AT GT p m HwA HnA HcA HwG HnG HcG HsG X eq_refl eq_refl k Hst). split; assumption.
 Qed.
 
@@ -1340,3 +1426,205 @@ Proof.
   intros i j Hij Hj. rewrite G4 by auto. now apply Kgen_Keq.
 Qed.
 End EqTop.
+
+(* ================================================================ update_data on same-pattern new data *)
+Lemma pp_pat (X X' XT XT' : csc F) : colptr X' = colptr X -> rowind X' = rowind X -> colptr XT' = colptr XT -> rowind XT' = rowind XT ->
+  nrows XT' = nrows XT -> prod_upper_pattern X' XT' = prod_upper_pattern X XT.
+Proof. intros E1 E2 E3 E4 E5. unfold prod_upper_pattern. rewrite E5. now apply pcm_eq. Qed.
+
+(* the static invariant after the cached transpose (and possibly the cached product) has been recomputed on data with the pattern
+   of XT: nothing else of the state depends on the values *)
+Lemma e_static_recache d XT XT' RT rx r X X' exact k cx' :
+  colptr X' = colptr X -> rowind X' = rowind X -> colptr XT' = colptr XT -> rowind XT' = rowind XT -> nrows XT' = nrows XT ->
+  e_static d XT RT rx r X exact k -> cache_ok (sd_n d) rx XT' X' -> length cx' = coff (prod_col X XT) (sd_n d) ->
+  (exact = true -> pvals (sd_n d) X' XT' rx None cx') ->
+  e_static d XT' RT rx r X' exact (ek_set_XX (ek_set_X k X') (XXof XT' X' cx') (repeat 0%Qc (sd_n d))).
+Proof.
+  intros E1 E2 E3 E4 E5 (cx & EX & CX & EXX & Lcx & Vx & Epinv & Epki & Ekp & Eki & MP & MX & Lr & Hr & Etmp & Lkx) CX' Lcx' Vx'.
+  pose proof (pp_pat X X' XT XT' E1 E2 E3 E4 E5) as Epp.
+  assert (Ekc : kcE d XT' X' = kcE d XT X) by (unfold kcE; now rewrite Epp).
+  assert (Eec : ecE d XT' RT X' = ecE d XT RT X) by (unfold ecE; now rewrite Ekc).
+  assert (EXXo : XXof XT' X' cx' = XXof XT X cx') by (unfold XXof; now rewrite Epp).
+  assert (Ecf : coff (prod_col X' XT') (sd_n d) = coff (prod_col X XT) (sd_n d)) by (apply coff_ext; intros j; now apply prod_col_pat).
+  exists cx'. unfold e_static. rewrite Eec, Ekc, Ecf.
+  destruct k as [a1 a2 a3 a4 a5 a6 a7 a8 a9 a10 a11 a12].
+  cbn [ek_set_kx ek_set_XX ek_set_X ek_X ek_XX ek_pinv ek_PKi ek_kp ek_ki ek_P2K ek_X2K ek_R2K ek_tmp ek_kx ek_sc] in *.
+  split; [reflexivity|]. split; [exact CX'|]. split; [reflexivity|]. split; [exact Lcx'|]. split; [exact Vx'|].
+  split; [exact Epinv|]. split; [exact Epki|]. split; [exact Ekp|]. split; [exact Eki|]. split; [exact MP|].
+  split; [rewrite EXXo; exact MX|]. split; [exact Lr|]. split; [exact Hr|]. split; [reflexivity|exact Lkx].
+Qed.
+
+(* the mask covers the changed blocks.  EQ: A changed => KKT_UPDATE_A; anything changed => mask <> 0 *)
+Definition covers_eq (mask : nat) (d : sdata) (px ax gx lbs ubs : Vec) : Prop :=
+  (Nat.testbit mask 1 = false -> ax = vals (sd_AT d)) /\
+  (mask = 0 -> px = vals (sd_P d) /\ gx = vals (sd_GT d) /\ lbs = sd_lbs d /\ ubs = sd_ubs d).
+
+Section EqDataA.
+Variable d : sdata.
+Hypothesis Hok : elim_data_ok d (sd_GT d).
+Local Notation n := (sd_n d). Local Notation p := (sd_p d). Local Notation m := (sd_m d).
+Local Notation P := (sd_P d). Local Notation AT := (sd_AT d). Local Notation GT := (sd_GT d).
+Let Hwf : wf_sdata d. Proof. apply Hok. Qed.
+Let Hup : upper_only P = true. Proof. apply Hok. Qed.
+Let Hsorted : sorted_colsb P = true. Proof. apply Hok. Qed.
+Let HsG : sorted_colsb GT = true. Proof. apply Hok. Qed.
+Let HwA : wf_csc AT = true. Proof. apply Hwf. Qed.
+Let HnA : nrows AT = n. Proof. apply Hwf. Qed.
+Let HcA : ncols AT = p. Proof. apply Hwf. Qed.
+
+(* the A branch of update_data: re-transposition of the cached A, update_AT_A *)
+Lemma eq_data_A_static ax X k : eqS d X k -> length ax = nnz AT ->
+  exists k1 X1,
+    (do A <- transpose_no_alloc (sd_AT (with_AT d ax)) (ek_X k) ;;
+     do '(ATA, tmp) <- scatter_product A (sd_AT (with_AT d ax)) (ek_XX k) None (ek_tmp k) ;;
+     Ok (ek_set_XX (ek_set_X k A) ATA tmp)) = Ok k1 /\
+    eqS (with_AT d ax) X1 k1 /\ ek_sc k1 = ek_sc k /\ rowind X1 = rowind X /\ colptr X1 = colptr X.
+Proof.
+  intros Hst Lax. pose proof Hst as (cx & EX & CX & EXX & Lcx & Vx & Epinv & Epki & Ekp & Eki & MP & MX & Lr & Hr & Etmp & Lkx).
+  set (AT1 := set_vals AT ax). change (sd_AT (with_AT d ax)) with AT1.
+  assert (HwAT1 : wf_csc AT1 = true) by (apply wf_set_vals; auto).
+  destruct (retranspose_ok AT AT1 X n p CX (same_pat_set_vals _ ax HwA Lax) HwAT1 HnA HcA) as (A' & EA & CA' & Erow & Ecp).
+  rewrite EX, EA. cbn [bind].
+  pose proof (pp_pat X A' AT AT1 Ecp Erow eq_refl eq_refl eq_refl) as Epp.
+  assert (Lcx0 : length cx = nnz (prod_upper_pattern A' AT1)).
+  { rewrite Epp, Lcx. unfold nnz. rewrite (pp_eq X AT n HnA). symmetry. apply (ofcols_nnz n _ (fun _ _ => 0%Qc)). }
+  destruct (scatter_cache_ok n p AT1 A' None cx HwAT1 HnA HcA CA' I Lcx0) as (cx' & ES & VS).
+  assert (EC : ek_XX k = csc_set_vals (prod_upper_pattern A' AT1) cx) by (rewrite EXX, Epp; reflexivity).
+  rewrite EC, Etmp. unfold Vec, F in *. rewrite ES. cbn [bind].
+  eexists. exists A'. split; [reflexivity|].
+  split; [|split; [destruct k; reflexivity|split; [exact Erow|exact Ecp]]].
+  assert (Lcx' : length cx' = coff (prod_col X AT) n).
+  { transitivity (coff (prod_col A' AT1) n); [exact (pvals_len n A' AT1 p None cx' HnA VS)|]. apply coff_ext. intros j. now apply prod_col_pat. }
+  exact (e_static_recache d AT AT1 GT p m X A' true k cx' Ecp Erow eq_refl eq_refl eq_refl Hst CA' Lcx' (fun _ => VS)).
+Qed.
+
+End EqDataA.
+
+Section EqData.
+Variable d : sdata.
+Hypothesis Hok : elim_data_ok d (sd_GT d).
+Local Notation n := (sd_n d). Local Notation p := (sd_p d). Local Notation m := (sd_m d).
+Local Notation P := (sd_P d). Local Notation AT := (sd_AT d). Local Notation GT := (sd_GT d).
+Let Hwf : wf_sdata d. Proof. apply Hok. Qed.
+Let Hup : upper_only P = true. Proof. apply Hok. Qed.
+Let Hsorted : sorted_colsb P = true. Proof. apply Hok. Qed.
+Let HsG : sorted_colsb GT = true. Proof. apply Hok. Qed.
+
+(* update_data on new values (same pattern) keeps the static invariant FOR THE NEW DATA, keeps the pattern of the cached transpose,
+   and with a non-zero covering mask reaches the canonical form of the new data *)
+Theorem eq_update_data_form X k mask px ax gx lbs ubs :
+  eqS d X k -> length px = nnz P -> length ax = nnz AT -> length gx = nnz GT ->
+  covers_eq mask d px ax gx lbs ubs ->
+  let d' := with_all d px ax gx lbs ubs in
+  (mask <> 0 -> scal_ok d' (ek_sc k) /\ sc_delta (ek_sc k) <> 0%Qc) ->
+  exists k' X', eq_update_data d' k mask = Ok k' /\ eqS d' X' k' /\ ek_sc k' = ek_sc k /\
+    rowind X' = rowind X /\ colptr X' = colptr X /\
+    (mask <> 0 -> eqF d' X' (ek_sc k) k') /\ (mask = 0 -> k' = k).
+Proof.
+  intros Hst Lp La Lg (C1 & C0) d' Hsc. unfold d', with_all in *.
+  set (d0 := with_P d px lbs ubs). set (d1 := with_AT d0 ax). set (d2 := with_GT d1 gx).
+  assert (Hok0 : elim_data_ok d0 (sd_GT d0)).
+  { split; [apply wf_with_P; auto|]. split; [exact Hup|]. split; [exact Hsorted|exact HsG]. }
+  assert (St0 : eqS d0 X k) by exact Hst.
+  unfold eq_update_data.
+  assert (S1 : exists k1 X1, (if Nat.testbit mask 1 then
+             do A <- transpose_no_alloc (sd_AT d2) (ek_X k) ;;
+             do '(ATA, tmp) <- scatter_product A (sd_AT d2) (ek_XX k) None (ek_tmp k) ;;
+             Ok (ek_set_XX (ek_set_X k A) ATA tmp) else Ok k) = Ok k1 /\ eqS d1 X1 k1 /\ ek_sc k1 = ek_sc k /\
+             rowind X1 = rowind X /\ colptr X1 = colptr X /\ (Nat.testbit mask 1 = false -> k1 = k)).
+  { destruct (Nat.testbit mask 1) eqn:Eb.
+    - change (sd_AT d2) with (sd_AT (with_AT d0 ax)).
+      destruct (eq_data_A_static d0 Hok0 ax X k St0 La) as (k1 & X1 & E1 & St1 & Sc1 & R1 & R2).
+      exists k1, X1. split; [exact E1|]. split; [exact St1|]. split; [exact Sc1|]. split; [exact R1|]. split; [exact R2|discriminate].
+    - exists k, X. split; [reflexivity|]. split; [|split; [reflexivity|split; [reflexivity|split; [reflexivity|auto]]]].
+      unfold d1. rewrite (C1 eq_refl). change (sd_AT d) with (sd_AT d0). rewrite with_AT_id. exact St0. }
+  destruct S1 as (k1 & X1 & E1 & St1 & Sc1 & R1 & R2 & Id1). rewrite E1. cbn [bind].
+  assert (St2 : eqS d2 X1 k1) by exact St1.
+  destruct (Nat.eqb_spec mask 0) as [E0|N0].
+  - exists k1, X1. split; [reflexivity|]. split; [exact St2|]. split; [exact Sc1|]. split; [exact R1|]. split; [exact R2|].
+    split; [intros; contradiction|]. intros _. apply Id1. subst mask. reflexivity.
+  - assert (Hok2 : elim_data_ok d2 (sd_GT d2)).
+    { split; [unfold d2, d1, d0; apply wf_with_GT; [apply wf_with_AT; [apply wf_with_P|]|]; auto|].
+      split; [exact Hup|]. split; [exact Hsorted|exact HsG]. }
+    destruct (Hsc N0) as [Hs1 Hs2].
+    destruct (eq_refresh_thm d2 Hok2 X1 k1 St2) as (k' & E & Hf); [rewrite Sc1; exact Hs1 | rewrite Sc1; exact Hs2 |].
+    exists k', X1. split; [exact E|]. rewrite Sc1 in Hf. pose proof Hf as (St' & Sc' & _).
+    split; [exact St'|]. split; [exact Sc'|]. split; [exact R1|]. split; [exact R2|]. split; [intros _; exact Hf|intros; contradiction].
+Qed.
+End EqData.
+
+(* ================================================================ "= fresh": the stored matrix is determined by data, scalings and the pattern of the cache *)
+Lemma e_form_matrix_eq d XT RT rx r X X' ex ex' TLv Dv TLv' Dv' c c' k k' :
+  e_form d XT RT rx r X ex TLv Dv c k -> e_form d XT RT rx r X' ex' TLv' Dv' c' k' ->
+  rowind X' = rowind X -> colptr X' = colptr X ->
+  (forall i j, Kgen d RT TLv Dv i j = Kgen d RT TLv' Dv' i j) ->
+  ek_kp k' = ek_kp k /\ ek_ki k' = ek_ki k /\ ek_kx k' = ek_kx k.
+Proof.
+  intros ((cx & _ & _ & _ & _ & _ & _ & _ & Ekp & Eki & _ & _ & _ & _ & _ & Lkx) & _ & Hv)
+         ((cx' & _ & _ & _ & _ & _ & _ & _ & Ekp' & Eki' & _ & _ & _ & _ & _ & Lkx') & _ & Hv') R1 R2 HK.
+  pose proof (pp_pat X X' XT XT R2 R1 eq_refl eq_refl eq_refl) as Epp.
+  assert (Ekc : kcE d XT X' = kcE d XT X) by (unfold kcE; now rewrite Epp).
+  assert (Eec : ecE d XT RT X' = ecE d XT RT X) by (unfold ecE; now rewrite Ekc).
+  rewrite Eec in *. split; [congruence|]. split; [congruence|].
+  apply (nth_ext _ _ (0%Qc : F) (0%Qc : F)); [congruence|]. intros q Hq. rewrite Lkx' in Hq.
+  destruct (off_decomp (coff (ecE d XT RT X)) (fun j => length (ecE d XT RT X j)) (sd_n d + r) (fun c0 _ => eq_refl) q ltac:(cbn [coff]; lia))
+    as (j & t & Hj & Ht & ->).
+  rewrite Hv', Hv by auto. symmetry. apply HK.
+Qed.
+
+(* the box terms only read the first n_lb / n_ub entries of the box scalings: the state-dependent tails play no role *)
+Lemma bdiag_new_scal d c0 c0' rho delta s s_lb s_ub zi zlbi zubi i :
+  sd_nlb d <= length s_lb -> sd_nub d <= length s_ub -> length zlbi = sd_nlb d -> length zubi = sd_nub d ->
+  a_bdiag (sys_sparse d (new_scal d c0 rho delta s s_lb s_ub zi zlbi zubi)) i =
+  a_bdiag (sys_sparse d (new_scal d c0' rho delta s s_lb s_ub zi zlbi zubi)) i.
+Proof.
+  intros L1 L2 L3 L4.
+  unfold a_bdiag, a_wlb, a_wub, sys_sparse, sys_sparse_gen, new_scal, fv, fidx.
+  cbn [y_nlb y_nub y_lbidx y_ubidx y_lbs y_ubs y_slb y_sub y_zli y_zui y_delta sc_s_lb sc_s_ub sc_z_lb_inv sc_z_ub_inv sc_delta].
+  f_equal; apply sum_ext; intros k Hk; destruct (_ =? i); try reflexivity.
+  - rewrite !nth_set_head by (rewrite ?head_length; lia). reflexivity.
+  - rewrite !nth_set_head by (rewrite ?head_length; lia). reflexivity.
+Qed.
+
+(* the cached transpose has the inner / outer indices Eigen's transposition of the current block would give *)
+Definition canon_cache (XT X : csc F) : Prop :=
+  exists Xc, csc_transpose XT = Ok Xc /\ rowind X = rowind Xc /\ colptr X = colptr Xc.
+
+Theorem eq_update_data_scalings_eq_fresh d X k mask px ax gx lbs ubs rho0 delta0 rho delta s s_lb s_ub z z_lb z_ub zi zlbi zubi :
+  elim_data_ok d (sd_GT d) -> eqS d X k -> canon_cache (sd_AT d) X ->
+  length px = nnz (sd_P d) -> length ax = nnz (sd_AT d) -> length gx = nnz (sd_GT d) ->
+  covers_eq mask d px ax gx lbs ubs ->
+  let d' := with_all d px ax gx lbs ubs in
+  (mask <> 0 -> scal_ok d' (ek_sc k) /\ sc_delta (ek_sc k) <> 0%Qc) ->
+  delta0 <> 0%Qc -> scal_ok d' (unit_scal d' rho0 delta0) ->
+  sd_nlb d <= length s_lb -> sd_nlb d <= length z_lb -> sd_nub d <= length s_ub -> sd_nub d <= length z_ub ->
+  vinv z = Ok zi -> vinv (head (sd_nlb d) z_lb) = Ok zlbi -> vinv (head (sd_nub d) z_ub) = Ok zubi ->
+  (forall c0, scal_ok d' (new_scal d' c0 rho delta s s_lb s_ub zi zlbi zubi)) -> delta <> 0%Qc ->
+  exists k1 k2 k0 k3 X',
+    eq_update_data d' k mask = Ok k1 /\ eq_update_scalings d' k1 rho delta s s_lb s_ub z z_lb z_ub = Ok k2 /\
+    eq_init d' rho0 delta0 None = Ok k0 /\ eq_update_scalings d' k0 rho delta s s_lb s_ub z z_lb z_ub = Ok k3 /\
+    eqF d' X' (new_scal d' (ek_sc k) rho delta s s_lb s_ub zi zlbi zubi) k2 /\ canon_cache (sd_AT d') X' /\
+    ek_kp k2 = ek_kp k3 /\ ek_ki k2 = ek_ki k3 /\ ek_kx k2 = ek_kx k3.
+Proof.
+  intros Hok Hst (Xc & Ecan & Cr & Cc) Lp La Lg Hcov d' Hsc Hd0 Hu0 L1 L2 L3 L4 E1 E2 E3 Hsc2 Hd.
+  pose proof Hok as (Hwf & Hup & Hs & HsG). pose proof Hwf as (_ & _ & _ & HwA & HnA & HcA & _).
+  destruct (eq_update_data_form d Hok X k mask px ax gx lbs ubs Hst Lp La Lg Hcov Hsc) as (k1 & X1 & Eu & St1 & Sc1 & R1 & R2 & _ & _).
+  fold d' in Eu, St1.
+  assert (Hok' : elim_data_ok d' (sd_GT d')).
+  { split; [unfold d', with_all; apply wf_with_GT; [apply wf_with_AT; [apply wf_with_P|]|]; auto|]. split; [exact Hup|]. split; [exact Hs|exact HsG]. }
+  destruct (eq_update_scalings_thm d' Hok' X1 k1 rho delta s s_lb s_ub z z_lb z_ub zi zlbi zubi St1 L1 L2 L3 L4 E1 E2 E3 (Hsc2 _) Hd) as (k2 & Es2 & Hf2).
+  destruct (eq_init_form d' Hok' rho0 delta0 Hd0 Hu0) as (k0 & X0 & E0 & Hf0 & Ecan0).
+  pose proof Hf0 as (St0 & _).
+  destruct (eq_update_scalings_thm d' Hok' X0 k0 rho delta s s_lb s_ub z z_lb z_ub zi zlbi zubi St0 L1 L2 L3 L4 E1 E2 E3 (Hsc2 _) Hd) as (k3 & Es3 & Hf3).
+  destruct (csc_transpose_pat (sd_AT d) (sd_AT d') Xc (sd_n d) (sd_p d) HwA (wf_set_vals _ ax HwA La) (same_pat_set_vals _ ax HwA La) HnA HcA Ecan)
+    as (X0' & E0' & B1 & B2).
+  rewrite Ecan0 in E0'. injection E0' as <-.
+  exists k1, k2, k0, k3, X1. split; [exact Eu|]. split; [exact Es2|]. split; [exact E0|]. split; [exact Es3|].
+  rewrite Sc1 in Hf2. split; [exact Hf2|].
+  split; [exists X0; split; [exact Ecan0|split; congruence]|].
+  apply (e_form_matrix_eq d' (sd_AT d') (sd_GT d') (sd_p d') (sd_m d') X0 X1 true true _ _ _ _ _ _ k3 k2 Hf3 Hf2); try congruence.
+  intros i j. destruct (vinv_ok _ _ E2) as [Lz2 _]. destruct (vinv_ok _ _ E3) as [Lz3 _].
+  rewrite head_length in Lz2 by auto. rewrite head_length in Lz3 by auto.
+  unfold Kgen, TLeq, TLgen, Deq.
+  rewrite (bdiag_new_scal d' (ek_sc k0) (ek_sc k) rho delta s s_lb s_ub zi zlbi zubi i L1 L3 Lz2 Lz3). reflexivity.
+Qed.
